@@ -210,7 +210,12 @@ func toNode(m *mval, raw bool) ast.Node {
 	default:
 		var ps []ast.Pair
 		for i, e := range m.elems {
-			ps = append(ps, ast.NewPair(m.keys[i], toNode(e, false)))
+			if (len(m.elems)+i)%2 == 0 {
+				ps = append(ps, ast.NewPair(m.keys[i], toNode(e, false)))
+			} else {
+				// the exported fields of Pair: a literal is a legitimate way to build one
+				ps = append(ps, ast.Pair{Key: m.keys[i], Value: toNode(e, false)})
+			}
 		}
 		return ast.NewObject(ps)
 	}
